@@ -46,6 +46,9 @@ type RunConfig struct {
 	Solver        SolverKind
 	TimeoutMs     int
 	Known         []KnownFinding
+	// CutOnUnwind turns an exceeded loop bound into "outside the stated bound" (for loops
+	// whose trip count is the stated bound itself, e.g. the number of proof lines).
+	CutOnUnwind bool
 	// ExpectPanic lists panic sites (substring match) that the harness treats as its subject.
 	Quiet bool
 }
